@@ -262,6 +262,36 @@ def r04_17(run, model):
     run.floor("arms of compile_expr examined", n, 20)
 
 
+def r04_18(run, model):
+    run.rule("R04.18", "a position is reported against the text it was computed in: parse diagnostics carry only a byte range and the CLI "
+                       "renders every parser error against the entry file's text, so a parse error of any other file of a package either "
+                       "names its file in the error value or has its positions resolved where that file's text is at hand")
+    PIPE = "crates/compiler/src/pipeline/pipeline.rs"
+    PK = "crates/compiler/src/pipeline/packages.rs"
+    e = model.enum("CompilationError", PIPE)
+    v = next((x for x in e["variants"] if x["name"] == "Parser"), None)
+    if v is None:
+        raise AnalysisIncomplete("CompilationError::Parser not found")
+    fields = [S.norm_ws(str(fl.get("name"))) + ":" + S.norm_ws(str(fl.get("ty"))) for fl in (v.get("fields") or [])]
+    carries_file = any(re.search(r"path|file|source", x, re.I) for x in fields)
+    resolvers = {g.name for g in model.fns(PK) if g.body is not None and any(True for _ in S.calls(g.body, "format_parser_diagnostics"))}
+    f = model.fn("load_package", PK)
+    par = S.Parents(f.body)
+    n = 0
+    for c in S.calls(f.body, "parse_ast_file"):
+        n += 1
+        wrapped = False
+        for a in par.ancestors(c):
+            if a["k"] == "MethodCall" and a["method"] == "map_err" and resolvers and any(True for _ in S.calls(a, *resolvers)):
+                wrapped = True
+                break
+        run.ob("R04.18", f"load_package|parse error #{n} of a non-entry file is located in that file", carries_file or wrapped, site(PK, c["sp"]),
+               f"CompilationError::Parser fields: {fields}; resolved through {sorted(resolvers) or 'nothing'} at this call: {wrapped}",
+               witness="package Main = main.gom (short) + other.gom with a syntax error at byte 900: `compiler run main.gom` prints the error against "
+                       "main.gom's text - wrong file and line, or the panic `invalid offset` when main.gom is shorter than the offset")
+    run.floor("parses of non-entry files in load_package", n, 1)
+
+
 def r04_7(run, model, only_files=None):
     from lib import bounds as B
     run.rule("R04.7", "hand-written scanners never index past the end: every `bytes[E]` / `tokens[E]` in the lexer's multi-line string scanner, the "
@@ -408,6 +438,7 @@ def run(run, model):
     run.try_rule(r04_5, model, mir)
     run.try_rule(r04_16, model, mir)
     run.try_rule(r04_17, model)
+    run.try_rule(r04_18, model)
     run.try_rule(r04_7, model)
     run.try_rule(r04_8, model)
     run.try_rule(r04_10, model, an)
@@ -432,6 +463,8 @@ def run(run, model):
     run.rule("R04.9", "specialisation neither panics on a supported type former nor recurses without bound: shared with C07 R07.1 / R07.5")
     run.try_rule(c07.r07_1, model, False)
     run.try_rule(c07.r07_5, model)
+    run.rule("R04.19", "specialisation terminates (shared with C07 R07.12): polymorphic recursion must not make the compiler loop")
+    run.try_rule(c07.r07_12, model)
     run.rule("R04.6", "no cyclic type can be built: shared with C03 R03.2 (occurs before binding; occurs handles every type former)")
     run.try_rule(c03.r03_2, model)
     run.try_rule(c07.r07_2, model, None, "C04")
